@@ -38,6 +38,8 @@ pub enum ColorKind {
     User8,
     /// harness-defined 2 bpp colour whose `From<RawU2>` is not total (raw value 3 is forbidden)
     User2,
+    /// harness-defined colour whose `PartialEq` is coarser than its `Into<C32>` (C03 only)
+    UserA,
 }
 
 impl ColorKind {
@@ -58,6 +60,7 @@ impl ColorKind {
             ColorKind::Bgr888 => "Bgr888",
             ColorKind::User8 => "UserColor8",
             ColorKind::User2 => "UserColor2(partial)",
+            ColorKind::UserA => "UserColorA(coarse ==)",
         }
     }
     pub fn bits(self) -> u32 {
@@ -74,7 +77,8 @@ impl ColorKind {
             ColorKind::Rgb444 => 12,
             ColorKind::Rgb555 | ColorKind::Bgr555 => 15,
             ColorKind::Bgr565 => 16,
-            ColorKind::Bgr888 => 24,
+            // UserA: raw values below 2^24, i.e. "alpha" (the top byte) is always zero
+            ColorKind::Bgr888 | ColorKind::UserA => 24,
         }
     }
     pub fn mask(self) -> u32 {
@@ -149,6 +153,45 @@ impl From<Cu2> for embedded_graphics::pixelcolor::raw::RawU2 {
     fn from(c: Cu2) -> Self {
         embedded_graphics::pixelcolor::raw::RawU2::new(c.0)
     }
+}
+
+/// Harness-defined colour standing for a user's colour type whose equality is **coarser than its
+/// conversion**: an ARGB colour with premultiplied-alpha semantics — all fully transparent colours
+/// (top byte zero) compare equal — whose `Into<C32>` nevertheless keeps every bit. "Maps every
+/// colour through `Into`" must hold for it too: nothing may be concluded from `==`.
+#[derive(Clone, Copy, Debug)]
+pub struct CuA(pub u32);
+
+impl PartialEq for CuA {
+    fn eq(&self, o: &Self) -> bool {
+        (self.0 >> 24 == 0 && o.0 >> 24 == 0) || self.0 == o.0
+    }
+}
+impl PixelColor for CuA {
+    type Raw = RawU32;
+}
+impl From<RawU32> for CuA {
+    fn from(r: RawU32) -> Self {
+        CuA(r.into_inner())
+    }
+}
+impl From<CuA> for RawU32 {
+    fn from(c: CuA) -> Self {
+        RawU32::new(c.0)
+    }
+}
+impl From<CuA> for C32 {
+    fn from(c: CuA) -> Self {
+        C32(c.0)
+    }
+}
+
+thread_local! {
+    /// set by C03 only: the conversion chain of a `C32` device continues with the user colour
+    static USER_CHAIN: std::cell::Cell<bool> = std::cell::Cell::new(false);
+}
+pub fn set_user_chain(on: bool) {
+    USER_CHAIN.with(|u| u.set(on));
 }
 
 pub trait ImageVisitor<C: SimColor> {
@@ -252,9 +295,18 @@ impl SimColor for Cu2 {
     with_image_impl!(Cu2);
     new_const_impl!(Cu2);
 }
+impl SimColor for CuA {
+    const KIND: ColorKind = ColorKind::UserA;
+    type Down = CuA;
+    fn to_u32(self) -> u32 {
+        self.0
+    }
+    with_image_impl!(CuA);
+    new_const_impl!(CuA);
+}
 impl SimColor for C32 {
     const KIND: ColorKind = ColorKind::C32;
-    type Down = C32;
+    type Down = CuA;
     fn to_u32(self) -> u32 {
         self.0
     }
@@ -285,6 +337,7 @@ pub fn down_kind(kind: ColorKind) -> ColorKind {
     match kind {
         ColorKind::Rgb888 => ColorKind::Rgb565,
         ColorKind::Rgb565 => ColorKind::Binary,
+        ColorKind::C32 if USER_CHAIN.with(|u| u.get()) => ColorKind::UserA,
         k => k,
     }
 }
